@@ -64,6 +64,9 @@ def gen_multipart(r, feats=None, opts=None):
             filename = r.text(grammar.UNRESERVED + ' ', 1, 10) if not r.chance(0.15) else 'f' + r.pick(['"', '\\', ';', 'C:\\dir\\']) + 'x.bin'
             if r.chance(0.7):
                 ctype = r.pick(['application/octet-stream', 'text/plain', 'image/png'])
+        elif r.chance(0.3):
+            # text parts may carry their own content type too (HttpClient, .NET StringContent, curl -F 'x=..;type=..')
+            ctype = r.pick(['text/plain', 'application/json', 'text/html'])
         for _try in range(20):
             data = gen_part_data(r, boundary, 0, opts.get('max_part', 120))
             if eol == b'\n':
@@ -78,7 +81,10 @@ def gen_multipart(r, feats=None, opts=None):
             cd += '; filename=' + quote_param(filename)
         hdr = b'Content-Disposition: ' + cd.encode('latin-1') + eol
         if ctype:
-            hdr += b'Content-Type: ' + ctype.encode() + eol
+            if r.chance(0.2):
+                hdr = b'Content-Type: ' + ctype.encode() + eol + hdr      # part headers in the other order
+            else:
+                hdr += b'Content-Type: ' + ctype.encode() + eol
         wire.append(b'--' + boundary.encode() + eol + hdr + eol + data + eol)
         parts.append(dict(type=PART_FILE if is_file else PART_TEXT, name=name.encode('latin-1'), filename=None if filename is None else filename.encode('latin-1'),
                           ctype=ctype, data=data))
@@ -120,9 +126,11 @@ def check_multipart(mp_dump, truth, params, errs, prefix='mp', put_method=False)
             if g['file_len'] != len(e['data']):
                 errs.append((prefix + '_file_len', 'part %d file length %d expected %d' % (i, g['file_len'], len(e['data']))))
             file_bytes += e['data']
-            gct = g['ct']
-            if (gct or None) != (e['ctype'] or None):
-                errs.append((prefix + '_part_ctype', 'part %d content type %r expected %r' % (i, gct, e['ctype'])))
+        gct = g['ct']
+        if (gct or None) != (e['ctype'] or None):
+            errs.append((prefix + '_part_ctype', 'part %d (%s) content type %r expected %r' % (i, 'file' if e['type'] == PART_FILE else 'text', gct, e['ctype'])))
+        if e['type'] == PART_FILE:
+            pass
         else:
             gv = b'' if g['value'] is None else g['value'].encode('latin-1')   # an empty value may be reported as NULL
             if gv != e['data']:
